@@ -94,6 +94,10 @@ class Spec(core.PropSpec):
                                init_fn=ro.random() < 0.7))
         for _ in range(ro.choice([0, 0, 1, 2])):
             stack["root"]["clobber"][str(ro.randint(0, 12))] = [ro.choice(["np", "torch", "py", "advance"]), ro.randint(0, 999)]
+        if ro.random() < 0.2:
+            stack["root"]["fail_at"] = sorted({ro.randint(1, 15) for _ in range(ro.randint(1, 2))})  # transient storage errors
+        if ro.random() < 0.15 and not streams:
+            stack["seeded"]["seed"] = ro.choice([2 ** 31 - 1, 2 ** 32 + 5, 2 ** 62 + 11])  # "all seeds"
         return dict(cls="streams" if streams else "purity", stack=stack, mode=mode, return_ctx=(not streams) and rw.random() < 0.6,
                     K=K, prefetch=ro.choice([1, 2, 3]), epochs=epochs, sched_seed=ro.getrandbits(32), amb_main=rw.getrandbits(30),
                     amb_ref=rw.getrandbits(30))
@@ -182,13 +186,14 @@ class Spec(core.PropSpec):
 
     def _run(self, plan, stack, out):
         from functools import partial
+        import numpy as np
         import torch
         from kappadata.wrappers import ModeWrapper
         from simkit.chooser import Chooser
         from simkit.deep import deep_diff, h
         from simkit.simloader import SimDataLoader
         from simkit.simproc import SimProcess
-        from .simdata import identity_collate
+        from .simdata import identity_collate, InjectedReadError
         vio = []
         main = SimProcess("main", plan["amb_main"])
         try:
@@ -204,9 +209,10 @@ class Spec(core.PropSpec):
             out.rejected = True
             return vio
         refs = {}
-        ref_stack = dict(stack, root=dict(stack["root"], clobber={}))
+        ref_stack = dict(stack, root=dict(stack["root"], clobber={}, fail_at=[]))
 
         def ref(i):
+            i = int(i)
             if i not in refs:
                 p = SimProcess("ref", plan["amb_ref"] + 17 * i + 1)
                 with p.on_cpu():
@@ -219,6 +225,7 @@ class Spec(core.PropSpec):
 
         def ref_flipped(i):
             """the same fresh single access, but with the opposite context propagation (values only)"""
+            i = int(i)
             p = SimProcess("ref2", plan["amb_ref"] + 29 * i + 5)
             with p.on_cpu():
                 v = ModeWrapper(S.build(ref_stack), mode=plan["mode"], return_ctx=not plan["return_ctx"])[i]
@@ -238,6 +245,8 @@ class Spec(core.PropSpec):
         faults = 0
         for ei, ep in enumerate(plan["epochs"]):
             batches = [[i % n for i in b] for b in ep["batches"] if b]
+            if ei % 2 == 1:
+                batches = [[np.int64(i) for i in b] for b in batches]  # samplers hand over numpy integers as often as python ints
             if not batches:
                 continue
             if ep["clobber_main"]:
@@ -257,6 +266,12 @@ class Spec(core.PropSpec):
             try:
                 with main.on_cpu():
                     delivered = list(Ld(ds, **kw))
+            except InjectedReadError:
+                # the storage failed while a worker fetched a batch: the epoch is lost (that is allowed); later epochs in fresh
+                # workers must be right again
+                out.count("fault:transient_read_error_in_root")
+                out.ev("io-error", ei)
+                continue
             except Exception as e:
                 if isinstance(e, AssertionError):
                     # an assertion that a fresh single access of the same index trips as well is a refusal of the
@@ -275,6 +290,7 @@ class Spec(core.PropSpec):
                 return vio
             for b, samples in zip(batches, delivered):
                 for i, smp in zip(b, samples):
+                    i = int(i)
                     seen[i] = seen.get(i, 0) + 1
                     out.count("logical:samples_delivered")
                     try:
